@@ -176,7 +176,7 @@ def strat():
         T = draw(st.integers(1, 10))
         C = draw(st.integers(2, 5))
         blank = draw(st.integers(0, C - 1))
-        kind = draw(st.sampled_from(["float", "int", "int01"]))
+        kind = draw(st.sampled_from(["float", "float", "int", "int01", "huge", "tiny"]))
         pinf = draw(st.sampled_from([0.0, 0.0, 0.15, 0.4]))
         rows = []
         for _ in range(T):
@@ -186,6 +186,10 @@ def strat():
                     r.append(INF)
                 elif kind == "float":
                     r.append(draw(st.floats(0, 20, allow_nan=False, width=32)))
+                elif kind == "huge":        # -log of probabilities far below the float range of exp()
+                    r.append(float(draw(st.integers(750, 3000))) + draw(st.sampled_from([0.0, 0.25])))
+                elif kind == "tiny":        # -log of probabilities indistinguishable from 1 after exp()
+                    r.append(draw(st.sampled_from([0.0, 1e-18, 3e-17, 5e-16, 1e-12, 2e-9])))
                 elif kind == "int":
                     r.append(float(draw(st.integers(0, 4))))
                 else:
